@@ -662,3 +662,31 @@ Arguments is_vh {secret point} e.
 Arguments is_vr {secret point} e.
 Arguments is_store {secret point} e.
 Arguments is_sign_holder {secret point} e.
+
+(* ------------------------------------------------------------------------------------------ *)
+(** * A refuted statement (witness replayed on the real code by harness/src/bin/h_reest_probe.rs)
+
+    "Every counterparty commitment the node signs is one it records as outstanding" is FALSE for
+    the machine, hence -- the machine being a transliteration -- suspected false for the code, and
+    the witness below was replayed on the unmodified implementation (known finding C05-F1):
+    while NOT awaiting a revoke_and_ack, a channel_reestablish whose next_local_commitment_number
+    is the number of the last commitment_signed we sent (one less than an in-sync peer says) makes
+    [channel_reestablish] call [get_last_commitment_update_for_send], which signs the NEXT,
+    never-sent commitment number, without AWAITING_REMOTE_REVOKE and (in the Rust) without any
+    ChannelMonitorUpdate. *)
+Definition zrun := run Z Z (fun x => x) Z.eqb.
+Definition zstep := step Z Z (fun x => x) Z.eqb.
+
+Lemma unrecorded_counterparty_commitment_witness :
+  exists (ops : list (op Z Z)) (nl nr : Z),
+    let '(s, log) := zrun (init Z 100 101) (init_log Z Z 100 101) ops in
+    let '(s', evs) := zstep s (ORecvReest nl nr SecMatch) in
+    closed s = false /\ awaiting_rr s = false /\ disconnected s = true /\
+    ~ In (SignCounterparty (cp_next s)) log /\
+    evs = [SignCounterparty (cp_next s)] /\
+    closed s' = false /\ awaiting_rr s' = false /\ disconnected s' = false /\ cp_next s' = cp_next s.
+Proof.
+  exists [OCommit true; ORecvRAA 100 102 true false true; ORecvCS true false true; ODisconnect], 1, 1.
+  vm_compute. repeat split; try reflexivity.
+  intros H. repeat (destruct H as [H|H]; [discriminate H|]). exact H.
+Qed.
